@@ -15,12 +15,18 @@ Two halves.
 
 (2) Solvers, engine E1 (section X).  Real NM / Powell / DE / DE2 solvers on costs
     with a flat direction (``flat``: coordinate 0 ignored), a tied pair
-    (``c11_tied``) and a (2,2) product measure (``c11_measure22``, generation
-    monitor built with ``npts``), with ``Or/And`` trees of ChangeOverGeneration,
+    (``c11_tied``), four / five coordinates pulled together (``c11_tied4``; the
+    ``chain4`` / ``chain5`` starts make the collapsing pairs form groups that a later
+    pair joins) and a (2,2) product measure (``c11_measure22``, generation monitor
+    built with ``npts``), with ``Or/And/When`` trees of ChangeOverGeneration,
     CollapseAt, CollapseAs, CollapseWeight and CollapsePosition (initial masks in
-    every accepted format) as termination, driven by every op sequence to a depth
-    over {Step, StepTo(stop), Collapse, Solve} plus structured long histories.  A
-    spy on ``solver.Collapse`` records what each collapse applied, the termination
+    every accepted format) as termination, driven by
+      * every op sequence to a depth over {Step, StepTo(stop), Collapse, Solve},
+      * structured long histories ((StepTo, Collapse)^k Solve; Step^k Collapse Step^m
+        Collapse Solve; Collapse twice in a row; Solve Collapse Solve),
+      * ``Solve`` under every generation limit of a range (every generation at which
+        the run may legitimately stop, so the final solution is seen at every age).
+    A spy on ``solver.Collapse`` records what each collapse applied, the termination
     (state, And/Or skeleton) before/after and the position in the cost's call log.
     Oracle: every later logged cost call and the final solution satisfy the applied
     relation exactly (x[i] == target; x[i] constant for target=None; x[j] == x[i];
@@ -33,7 +39,7 @@ Two halves.
 """
 import itertools, traceback, json
 import numpy as np
-from mc import solverlab, env
+from mc import solverlab
 from mc import c11_lab as L
 from mc.runner import Tally, digest, jsonable
 from ref import c11_detect as ref
@@ -160,8 +166,10 @@ def shard_at(item):
     vecs = list(itertools.product(V, repeat=dim))
     masks = at_masks(dim, level)
     targets = at_targets(dim)
-    hist = None
-    for hist in histories(vecs, length, prefix):
+    hist = pick = None
+    for n, hist in enumerate(histories(vecs, length, prefix)):
+        if n == 137:
+            pick = hist
         mon = make_monitor(hist)
         for target in targets:
             tn = _tname(target)
@@ -177,7 +185,7 @@ def shard_at(item):
                         at_case(T, mon, hist, target, tol, gens, mask, base)
     T.hist('A:shards(dim,length,mask_level)', (dim, length, level))
     if hist is not None and (dim, length) == (2, 3):
-        T.sample({'detector': 'collapse_at', 'hist': [list(x) for x in hist], 'target': targets[-1], 'tolerance': TOLS[-1],
+        T.sample({'detector': 'collapse_at', 'hist': [list(x) for x in (pick or hist)], 'target': targets[-1], 'tolerance': TOLS[-1],
                   'generations': 2, 'mask': [0]}, 1)
     return T
 
@@ -274,8 +282,10 @@ def shard_as(item):
     vecs = list(itertools.product(V, repeat=dim))
     masks = as_masks(dim, level)
     npairs = dim * (dim - 1) // 2
-    hist = None
-    for hist in histories(vecs, length, prefix):
+    hist = pick = None
+    for n, hist in enumerate(histories(vecs, length, prefix)):
+        if n == 137:
+            pick = hist
         mon = make_monitor(hist)
         for offset in (False, True):
             for tol in TOLS:
@@ -290,7 +300,7 @@ def shard_as(item):
                         as_case(T, mon, hist, offset, tol, gens, mask, base)
     T.hist('S:shards(dim,length,mask_level)', (dim, length, level))
     if hist is not None and (dim, length) == (2, 3):
-        T.sample({'detector': 'collapse_as', 'hist': [list(x) for x in hist], 'offset': True, 'tolerance': TOLS[-1],
+        T.sample({'detector': 'collapse_as', 'hist': [list(x) for x in (pick or hist)], 'offset': True, 'tolerance': TOLS[-1],
                   'generations': 2, 'mask': [[1, 0]]}, 1)
     return T
 
@@ -439,8 +449,10 @@ def shard_measure(item):
     uni = len(ref.weight_universe(npts) if which == 'w' else ref.position_universe(npts))
     sec = 'W' if which == 'w' else 'P'
     unmasked = ref.weight_unmasked if which == 'w' else ref.position_unmasked
-    hist = None
-    for hist in histories(vecs, length, [vecs[i] for i in prefix]):
+    hist = pick = None
+    for n, hist in enumerate(histories(vecs, length, [vecs[i] for i in prefix])):
+        if n == 40:
+            pick = hist
         mon = make_monitor(hist, npts)
         for tol in TOLS:
             for gens in WINDOWS:
@@ -456,8 +468,8 @@ def shard_measure(item):
     T.hist('%s:mask_formats' % sec, sorted(set(f or 'None' for f, s in masks)))
     if hist is not None and (npts, length, background) == ((2, 2), 1, 1.0):
         T.sample({'detector': 'collapse_weight' if which == 'w' else 'collapse_position', 'npts': list(npts),
-                  'hist': [list(x) for x in hist], 'tolerance': TOLS[-1], 'generations': 2,
-                  'format': masks[-1][0], 'mask_items': masks[-1][1]}, 1)
+                  'hist': [list(x) for x in (pick or hist)], 'tolerance': TOLS[-1], 'generations': 2,
+                  'format': masks[-2][0], 'mask_items': masks[-2][1]}, 1)
     return T
 
 
@@ -552,6 +564,8 @@ TERMS = {
     'mixed_tol': ['Or', COG, ['At', 0.0, T6, 2, None], ['As', False, 0.25, 3, None]],
     'no_stop': ['Or', ['At', None, T10, 2, None], ['As', False, T4, 2, None]],
     'and_stop': ['And', COG, ['At', None, T4, 2, None]],
+    'when_or': ['Or', COG, ['When', ['Or', ['At', None, T6, 2, None], ['As', False, T4, 2, None]]]],
+    'and_single': ['Or', COG, ['And', ['Or', ['At', None, T10, 2, None], ['As', False, T4, 2, None]]]],
 }
 COG8 = ['COG', 1e-8, 5]
 MTERMS = {
@@ -568,9 +582,10 @@ MTERMS = {
     'p_where1': ['Or', COG8, ['P', T4, 2, ['where', [[0, [0, 1]]]]]],
 }
 TERMS.update(MTERMS)
+TIED3_QUICK = ['at_none', 'at_0', 'at_list', 'as_wide', 'as_masked', 'at0_as', 'and', 'mixed_tol', 'no_stop']
 T4TERMS = ['as_wide', 'as_g2', 'at0_as', 'as', 'and', 'no_stop', 'mixed_tol']     # the terminations used with the 4-parameter setup
 QUICK_MTERMS = ['w', 'p', 'wp', 'w_dictmask', 'w_set', 'p_where1']
-QUICK_TERMS = ['at_none', 'at_none_g1', 'at_none_masked', 'at_0', 'at_list', 'as_wide', 'as_masked', 'as_offset',
+QUICK_TERMS = ['at_none', 'at_none_g1', 'at_none_masked', 'at_0', 'at_1', 'at_list', 'when_or', 'and_single', 'as_wide', 'as_masked', 'as_offset',
                'at0_as', 'and', 'mixed_tol', 'no_stop']
 SETUPS = {
     'flat3': {'cost': 'flat', 'dim': 3, 'x0': [2.0 ** -5, 0.5, 0.75]},
@@ -587,14 +602,15 @@ SETUPS = {
     'meas22': {'cost': 'c11_measure22', 'dim': 8, 'npts': [2, 2], 'x0': [1.0, 0.0, 0.75, 0.25, 0.5, 0.5, 0.5, 0.5 + 2.0 ** -7]},
 }
 OPS = [['Step'], ['StepTo', 40], ['Collapse'], ['Solve']]
+STOPS = (2, 24)     # Solve under every generation limit in this range
 
 
-def structured():
+def structured(full=True):
     out = []
-    for k in range(0, 5):
+    for k in range(0, 5 if full else 4):
         out.append([['StepTo', 40], ['Collapse']] * k + [['Solve']])
-    for k in (2, 3, 4, 6):
-        for m in (0, 1, 3):
+    for k in ((2, 3, 4, 6) if full else (2, 3, 6)):
+        for m in ((0, 1, 3) if full else (0, 2)):
             out.append([['Step']] * k + [['Collapse']] + [['Step']] * m + [['Collapse'], ['Solve']])
     out.append([['StepTo', 40], ['Collapse'], ['Collapse'], ['StepTo', 40], ['Collapse'], ['StepTo', 200]])
     out.append([['Solve'], ['Collapse'], ['Solve']])
@@ -833,7 +849,7 @@ def run_trace(cfg, ops, T, judged=None):
     lab = L.Lab11(cfg)
     J = Judge(lab)
     done = []
-    key0 = (cfg['solver'], cfg['setup'], cfg['term'], cfg['seed'], cfg['init'])
+    key0 = (cfg['solver'], cfg['setup'], cfg['term'], cfg['seed'], cfg['init'], cfg['limits'][0])
     for op in ops:
         try:
             outcome = lab.apply(op)
@@ -880,11 +896,17 @@ def shard_solver(item):
         depth, first = arg
         for tail in itertools.product(range(len(OPS)), repeat=depth - 1):
             run_trace(cfg, [OPS[first]] + [OPS[i] for i in tail], T, judged)
+    elif what == 'stops':
+        # every generation at which the run may legitimately stop: the generation limit is the stop condition
+        for g in range(arg[0], arg[1]):
+            c2 = dict(cfg)
+            c2['limits'] = [g, cfg['limits'][1]]
+            run_trace(c2, [['Solve']], T)
     else:
-        for ops in structured():
+        for ops in structured(arg):
             run_trace(cfg, ops, T, judged)
         if (cfg['solver'], cfg['setup'], cfg['term']) in (('NM', 'flat3', 'at0_as'), ('DE2', 'meas22', 'wp')):
-            T.sample({'cfg': {k: v for k, v in cfg.items() if k != 'term11'}, 'termination': cfg['term11'], 'ops': structured()[2]}, 1)
+            T.sample({'cfg': {k: v for k, v in cfg.items() if k != 'term11'}, 'termination': cfg['term11'], 'ops': structured(arg)[2]}, 1)
     return T
 
 
@@ -935,7 +957,7 @@ def detector_items(ctx):
             items.append((sect, (3, 2, (f,), top if (th or sect == 'A') else 2)))
         if th:
             for f in v3:
-                items.append((sect, (3, 3, (f,), top)))
+                items.append((sect, (3, 3, (f,), top if sect == 'A' else 2)))
             for f in _prefixes(v3, 2):
                 items.append((sect, (3, 4, f, 0)))
         else:
@@ -951,7 +973,7 @@ def detector_items(ctx):
         items.append((sect, (which, (2, 2), 1, (), 3, 1.0)))
         items.append((sect, (which, (2, 2), 1, (), 3, 0.0)))
         for f in range(81):
-            items.append((sect, (which, (2, 2), 2, (f,), 3 if th else (1 if which == 'w' else 0), 1.0)))
+            items.append((sect, (which, (2, 2), 2, (f,), 3 if th else 0, 1.0)))
         if th and which == 'w':
             for f in itertools.product(range(81), repeat=2):
                 items.append((sect, (which, (2, 2), 3, f, 0, 1.0)))
@@ -959,7 +981,7 @@ def detector_items(ctx):
         items.append((sect, (which, (3, 2), 1, (), 2, 1.0)))
         if th:
             for f in range(243):
-                items.append((sect, (which, (3, 2), 2, (f,), 1, 1.0)))
+                items.append((sect, (which, (3, 2), 2, (f,), 0, 1.0)))
     # ---- collapse_cost
     for n, dim in ((3, 1), (4, 1), (5, 1), (3, 2)):
         items.append(('K', (n, dim, 0, 1)))
@@ -981,14 +1003,22 @@ def solver_items(ctx):
                                                            (['as_chain'] if setup in ('chain4', 'chain5') else pterms))):
                 if SETUPS[setup]['dim'] == 2 and term in ('at_list', 'as_masked'):
                     continue
+                if not th and setup == 'tied3' and term not in TIED3_QUICK:
+                    continue     # quick: the tied-pair cost gets the terminations in which the pair (0,1) matters
+                if not th and ((term in ('when_or', 'and_single') and solver not in ('NM', 'DE2')) or
+                               (term == 'at_1' and solver not in ('NM', 'Powell'))):
+                    continue     # quick: mask bookkeeping is solver independent; at_1 is the scalar target Powell reaches
                 if solver.startswith('DE'):
-                    for k, seed in enumerate(seeds[:1] if (setup == 'meas22' and not th) else seeds):
+                    for k, seed in enumerate(seeds[:1] if ((setup == 'meas22' and not th) or setup == 'flat2') else seeds):
                         cfgs.append(solver_cfg(solver, setup, term, seed, 'random' if (k % 2 and setup != 'meas22') else 'point'))
                 else:
                     cfgs.append(solver_cfg(solver, setup, term, ctx.seed))
     items = []
     for cfg in cfgs:
-        items.append(('X', (cfg, 'structured', None)))
+        items.append(('X', (cfg, 'structured', th)))
+        items.append(('X', (cfg, 'stops', STOPS)))
+        if cfg['solver'].startswith('DE') and cfg['seed'] > ctx.seed + (1 if th else 0):
+            continue     # the last DE population gets the structured histories and the stop points only
         for first in range(len(OPS)):
             items.append(('X', (cfg, 'general', (depth - 1 if cfg['setup'] == 'meas22' else depth, first))))
     det = [solver_cfg(sv, 'flat3', 'at0_as', ctx.seed, 'random' if sv.startswith('DE') else 'point') for sv in solverlab.SOLVERS]
@@ -1033,10 +1063,10 @@ def run(ctx):
         },
         'solvers': {'solvers': list(solverlab.SOLVERS), 'setups': SETUPS,
                     'terminations': {k: TERMS[k] for k in (sorted(TERMS) if ctx.thorough else sorted(set(QUICK_TERMS + QUICK_MTERMS + T4TERMS[:3] + ['as_chain'])))},
-                    'terminations_of_setup': {'meas22': 'w*, p*', 'chain4, chain5': ['as_chain'], 'tied4': T4TERMS if ctx.thorough else T4TERMS[:3], 'others': 'at*, as*, and*, nested_or, mixed_tol, no_stop'},
+                    'terminations_of_setup': {'tied3 (quick)': TIED3_QUICK, 'meas22': 'w*, p*', 'chain4, chain5': ['as_chain'], 'tied4': T4TERMS if ctx.thorough else T4TERMS[:3], 'others': 'at*, as*, and*, nested_or, mixed_tol, no_stop'},
                     'ops': OPS, 'general_depth': {'parameter setups': depth, 'measure setup': depth - 1},
-                    'structured_histories': structured(), 'configs': len(cfgs),
-                    'seeds': sorted(set(c['seed'] for c in cfgs)), 'DE_populations': 'NP=4; single start point and (odd seeds) random in [-1,2]^n',
+                    'structured_histories': structured(ctx.thorough), 'configs': len(cfgs), 'stop_points': 'Solve under every generation limit in range%r' % (STOPS,),
+                    'seeds': sorted(set(c['seed'] for c in cfgs)), 'DE_populations': 'NP=4; single start point (seed s) and random in [-1,2]^n (seed s+1); the last seed gets the structured histories and stop points only',
                     'limits(generations,evaluations)': {'default': [120, 1500], 'no_stop': [40, 400]},
                     'evaluation_horizon': 4000, 'collapse_call_horizon': L.MAX_COLLAPSE_CALLS},
     }
